@@ -3,9 +3,9 @@ C12, batches — several entities with different deltas in one flush are each se
 their own delta.  Statements and their proofs (the proofs are short enough to live next to the statements).
 
 `batch_exact`: whatever the key function, if equal keys imply equal kind deltas then every node of every batch ends up in
-a group whose statement sets and removes exactly that node's kinds.  `key_framed_injective`: the framed key of
-hooks/C12-fix3.patch has that property.  `key_old_collides` / `by_key_old_ignores_deleted`: the keys as they are at
-/repo ae91177 do not — `{add X}` and `{delete X}` share a statement.  The real builders are run by the tie (suite
+a group whose statement sets and removes exactly that node's kinds.  `key_framed_injective`: the framed key (the code
+as it is since commit c89800a) has that property.  `key_old_collides` / `by_key_old_ignores_deleted`: the keys before
+that commit did not — `{add X}` and `{delete X}` share a statement.  The real builders are run by the tie (suite
 c12batch, through the verif hook hooks/C12.patch) and judged by `badNode`.
 -/
 import Dawgs.Model.C12Batch
